@@ -3,103 +3,146 @@
 package multiplex
 
 import (
-	"fmt"
-	"sort"
-	"strings"
+	"errors"
 	"sync/atomic"
-	"time"
 )
 
-// VerifSessionState prints the bookkeeping state of a session canonically (compared with the Lean model).
-func VerifSessionState(sesh *Session) string {
-	sesh.streamsM.Lock()
-	var open, closing, tomb []int
-	for id, s := range sesh.streams {
-		switch {
-		case s == nil:
-			tomb = append(tomb, int(id))
-		case s.isClosed():
-			closing = append(closing, int(id))
-		default:
-			open = append(open, int(id))
-		}
-	}
-	q := len(sesh.acceptCh)
-	sesh.streamsM.Unlock()
-	sort.Ints(open)
-	sort.Ints(closing)
-	sort.Ints(tomb)
-	f := func(l []int) string {
-		ss := make([]string, len(l))
-		for i, v := range l {
-			ss[i] = fmt.Sprint(v)
-		}
-		return "[" + strings.Join(ss, ",") + "]"
-	}
-	b2i := func(b bool) int {
-		if b {
-			return 1
-		}
-		return 0
-	}
-	return fmt.Sprintf("closed=%d count=%d open=%s closing=%s tomb=%s accq=%d broken=%d", b2i(sesh.IsClosed()), sesh.streamCount(), f(open), f(closing), f(tomb), q,
-		atomic.LoadUint32(&sesh.sb.broken))
+// Shims for session-level rigs (C13 wire tap, C03/C01/C12 session pairs). They only expose unexported
+// functions and read state; no behaviour is added.
+
+// VerifRecv hands one received message to the session exactly as switchboard.deplex would
+// (recvDataFromRemote decrypts in place, so the caller's slice is copied first).
+func VerifRecv(sesh *Session, data []byte) error {
+	buf := make([]byte, len(data))
+	copy(buf, data)
+	return sesh.recvDataFromRemote(buf)
 }
 
-func VerifOpenStreams(sesh *Session) int {
+// VerifFrame is a decoded message.
+type VerifFrame struct {
+	StreamID uint32
+	Seq      uint64
+	Closing  uint8
+	Payload  []byte
+}
+
+// VerifDeobfuscate decodes one message with the REAL deobfuscate of the given obfuscator (data is not modified).
+func VerifDeobfuscate(o *Obfuscator, data []byte) (VerifFrame, error) {
+	buf := make([]byte, len(data))
+	copy(buf, data)
+	var f Frame
+	if err := o.deobfuscate(&f, buf); err != nil {
+		return VerifFrame{}, err
+	}
+	pl := make([]byte, len(f.Payload))
+	copy(pl, f.Payload)
+	return VerifFrame{f.StreamID, f.Seq, f.Closing, pl}, nil
+}
+
+func VerifStreamID(s *Stream) uint32 { return s.id }
+
+// VerifStreamSeq reads writingFrame.Seq under the stream's write mutex.
+func VerifStreamSeq(s *Stream) uint64 {
+	s.writingM.Lock()
+	defer s.writingM.Unlock()
+	return s.writingFrame.Seq
+}
+
+func VerifStreamClosed(s *Stream) bool { return s.isClosed() }
+
+// VerifReadWouldBlock inspects the receive pipe of an ordered stream: (bytes buffered, pipe closed).
+// A Read with a non-empty target parks exactly when buffered == 0 && !closed (no read deadline set).
+func VerifReadState(s *Stream) (buffered int, closed bool, ok bool) {
+	sb, isSB := s.recvBuf.(*streamBuffer)
+	if !isSB {
+		return 0, false, false
+	}
+	p := sb.buf
+	p.rwCond.L.Lock()
+	defer p.rwCond.L.Unlock()
+	return p.buf.Len(), p.closed, true
+}
+
+// VerifRecvBufState: next expected number and the numbers parked in the reorder heap (unsorted).
+func VerifRecvBufState(s *Stream) (next uint64, parked []uint64, ok bool) {
+	sb, isSB := s.recvBuf.(*streamBuffer)
+	if !isSB {
+		return 0, nil, false
+	}
+	sb.recvM.Lock()
+	defer sb.recvM.Unlock()
+	for _, f := range sb.sh {
+		parked = append(parked, f.Seq)
+	}
+	return sb.nextRecvSeq, parked, true
+}
+
+// VerifStreamEntry reports the session table entry of a stream id: "absent", "tombstone" or "live".
+func VerifStreamEntry(sesh *Session, id uint32) string {
 	sesh.streamsM.Lock()
 	defer sesh.streamsM.Unlock()
-	n := 0
-	for _, s := range sesh.streams {
-		if s != nil && !s.isClosed() {
-			n++
-		}
+	s, ok := sesh.streams[id]
+	switch {
+	case !ok:
+		return "absent"
+	case s == nil:
+		return "tombstone"
 	}
-	return n
+	return "live"
+}
+
+// VerifGetStream returns the live stream with that id, if any (e.g. one created by an incoming frame,
+// without consuming it from the accept queue).
+func VerifGetStream(sesh *Session, id uint32) *Stream {
+	sesh.streamsM.Lock()
+	defer sesh.streamsM.Unlock()
+	return sesh.streams[id]
 }
 
 func VerifStreamCount(sesh *Session) uint32 { return sesh.streamCount() }
-func VerifStreamID(s *Stream) uint32         { return s.id }
-func VerifStreamClosed(s *Stream) bool       { return s.isClosed() }
-func VerifMaxUnit(sesh *Session) int         { return sesh.maxStreamUnitWrite }
-func VerifRecv(sesh *Session, data []byte) error {
-	return sesh.recvDataFromRemote(data)
-}
-func VerifPassiveClose(sesh *Session) error { return sesh.passiveClose() }
-func VerifCheckTimeout(sesh *Session)      { sesh.checkTimeout() }
-func VerifInactivity(sesh *Session) time.Duration {
-	return sesh.InactivityTimeout
+func VerifMaxUnit(sesh *Session) int        { return sesh.maxStreamUnitWrite }
+func VerifConnCount(sesh *Session) uint32   { return atomic.LoadUint32(&sesh.sb.connsCount) }
+func VerifSwitchboardBroken(sesh *Session) bool {
+	return atomic.LoadUint32(&sesh.sb.broken) == 1
 }
 
-// VerifStreamBuffered reports whether a Read on the stream would return at once (data buffered or pipe closed).
-func VerifStreamReadable(s *Stream) bool {
-	switch rb := s.recvBuf.(type) {
-	case *streamBuffer:
-		p := rb.buf
-		p.rwCond.L.Lock()
-		defer p.rwCond.L.Unlock()
-		return p.buf.Len() > 0 || p.closed
-	case *datagramBufferedPipe:
-		rb.rwCond.L.Lock()
-		defer rb.rwCond.L.Unlock()
-		return len(rb.pLens) > 0 || rb.closed
+// VerifErrName maps the package's error values to stable names for the line protocol.
+func VerifErrName(err error) string {
+	switch {
+	case err == nil:
+		return "nil"
+	case errors.Is(err, ErrBrokenStream):
+		return "ErrBrokenStream"
+	case errors.Is(err, ErrBrokenSession):
+		return "ErrBrokenSession"
+	case errors.Is(err, errRepeatStreamClosing):
+		return "errRepeatStreamClosing"
+	case errors.Is(err, errRepeatSessionClosing):
+		return "errRepeatSessionClosing"
+	case errors.Is(err, errBrokenSwitchboard):
+		return "errBrokenSwitchboard"
+	case errors.Is(err, ErrTimeout):
+		return "ErrTimeout"
+	case errors.Is(err, errNoMultiplex):
+		return "errNoMultiplex"
 	}
-	return false
+	return "other:" + err.Error()
 }
 
-// VerifDecode decodes one on-wire message with a fresh obfuscator for (method, key); the input is not modified.
-func VerifDecode(method byte, key [32]byte, msg []byte) (sid uint32, seq uint64, closing uint8, payload []byte, err error) {
-	o, err := MakeObfuscator(method, key)
-	if err != nil {
-		return
+const VerifClosingNothing = closingNothing
+const VerifClosingStream = closingStream
+const VerifClosingSession = closingSession
+
+// VerifTryAccept takes a stream out of the accept queue if one is waiting (never blocks).
+func VerifTryAccept(sesh *Session) *Stream {
+	select {
+	case s := <-sesh.acceptCh:
+		return s
+	default:
+		return nil
 	}
-	cp := append([]byte(nil), msg...)
-	var f Frame
-	if err = o.deobfuscate(&f, cp); err != nil {
-		return
-	}
-	return f.StreamID, f.Seq, f.Closing, append([]byte(nil), f.Payload...), nil
 }
 
-func VerifConnsCount(sesh *Session) uint32 { return atomic.LoadUint32(&sesh.sb.connsCount) }
-func VerifSetStrategyFixed(sesh *Session)  { sesh.sb.strategy = fixedConnMapping }
+// VerifForceCloseRecv closes the receive buffer of a stream directly (used by the harness only to release a
+// goroutine that a faulty build left parked in Read, so that the run can end and report it).
+func VerifForceCloseRecv(s *Stream) { _ = s.recvBuf.Close() }
